@@ -2,7 +2,7 @@
 Engine E1: every canonical power tree up to n non-source nodes over the component alphabet, both polarities,
 source resistance 0 / r, single- and two-source forests; oracle = phys.check_phase(want C01) + mirror metamorphism."""
 from ..common import Run, Res, quiet_call, seed, close
-from ..sysmodel import (Trees, SIG_FULL, SIG_MID, SIG_DEEP, spec_from_forest, build, observe, resolve, g, PALETTES,
+from ..sysmodel import (Trees, SIG_FULL, SIG_MID, SIG_DEEP, SIG_ZERO, spec_from_forest, build, observe, resolve, g, PALETTES,
                         letters, mirror_args, tree_size)
 from .. import phys
 
@@ -140,6 +140,11 @@ def gen_cases(tier, want_mirror=True):
             for inputs in itertools.product(INPUT_OPTS if (k == 2 or tier != "quick") else INPUT_OPTS[::2], repeat=k):
                 for pol in (1, -1):
                     yield dict(fam="mux", inputs=[list(x) for x in inputs], pal=pal, rs_list=(k == 3), pol=pol, srs=0.0, n=k)
+        zero = Trees(SIG_ZERO[0], SIG_ZERO[1], max_one=("MX0",))
+        for n in (1, 2, 3):
+            for f in zero.iter_forests(n):
+                for pol, srs in ((1, 0.0), (-1, 0.0), (1, SRS)):
+                    yield dict(fam="zero", f=f, pal=pal, pol=pol, srs=srs, n=n)
         for depth in (2, 3, 4, 5, 6):
             for heavy in (0.5, 10.0, 20.0):
                 for micro in (2e-6, 2e-5, 1e-3):
@@ -172,7 +177,7 @@ def main(tier):
     return run.finish(
         rule="E1: every canonical tree (children as multisets) with n non-source nodes over the letter alphabets "
              "(full: 20 interior + 6 leaf letters, mid: 10+3, deep: 4+2; at most one PMux), x polarity x source rs in {0,0.37}, "
-             "plus amps-level loads beside micro-amp regulator chains of depth 2..6, two-source forests and 2-/3-input PMux systems (every input option of C05, both polarities); palette(s) by VERIF_SEED (quick) or all three (thorough). A case is non-trivial when some row "
+             "plus every tree n<=3 over a degenerate alphabet (zero resistances / drops / currents / powers, efficiency exactly 1, a regulator exactly at its drop-out boundary), amps-level loads beside micro-amp regulator chains of depth 2..6, two-source forests and 2-/3-input PMux systems (every input option of C05, both polarities); palette(s) by VERIF_SEED (quick) or all three (thorough). A case is non-trivial when some row "
              "took a non-default law branch (off-grid table lookup, clamp, drop-out, no-load, rectified negative input, fan-out>=2). "
              "states = distinct systems built on the real code, transitions = public API calls (add_source/add_comp/solve) executed, "
              "traces_validated = solved tables whose every row was compared with the reference law.",
